@@ -66,7 +66,7 @@ func loadProps(verif string) (map[string]*PropConfig, error) {
 	return m, nil
 }
 
-var propLabelRe = regexp.MustCompile(`[:/](C\d{2,3})\.[A-Za-z_]`)
+var propLabelRe = regexp.MustCompile(`[:/]((?:C\d{2})+)\.[A-Za-z_]`)
 
 type funcRun struct {
 	name string
@@ -287,7 +287,8 @@ func cmdCheck(args []string) int {
 	{
 		var keep []*Obligation
 		for _, o := range obls {
-			if m := propLabelRe.FindStringSubmatch(o.Name); m != nil && m[1] != *prop {
+			// a label may name several properties: "C03C16.x" belongs to C03 and to C16
+			if m := propLabelRe.FindStringSubmatch(o.Name); m != nil && !strings.Contains(m[1], *prop) {
 				continue
 			}
 			keep = append(keep, o)
